@@ -665,6 +665,27 @@ class Inter:
                     out.append(wr)
         return out
 
+    def must_write_item(self, e, item, mapping=None, depth=6, _stack=()):
+        """event e stores `item` on every success path of every callee on the way (whatever the value)"""
+        mapping = mapping or {}
+        pw = self.prim_write(e)
+        if pw:
+            it = pw["item"]
+            if it == "?unknown-item" and mapping and e.args:
+                it = self.storage_item(sym.subst(e.args[0], mapping), e.fn.crate) or it
+            return pw["kind"] == "write" and it == item
+        if e.target is None or depth <= 0 or e.target.key in _stack:
+            return False
+        if ("write", item) not in self.summary(e.target)["may"]:
+            return False
+        args2 = [sym.subst(a, mapping) for a in e.args]
+        m2 = self.param_map(e.target, args2)
+        try:
+            oks = self.ok_paths_at(e.target, m2)
+        except P.TooManyPaths:
+            return False
+        return bool(oks) and all(any(self.must_write_item(e2, item, m2, depth - 1, _stack + (e.target.key,)) for e2 in p.events) for p in oks)
+
     def writes_on_path(self, p, mapping=None):
         out = []
         for e in p.events:
